@@ -171,6 +171,23 @@ def mann_whitney(pos, neg, ep, en, sc):
     return (Fraction(wins) + Fraction(ties, 2)) / (P * N)
 
 
+def mann_whitney_large(pos, neg, ep, en, sc):
+    """The same statistic for large classes: exact integer counting by binary search instead of the pair loop."""
+    import numpy as _np
+
+    p_ = _np.sort(_np.asarray(pos, dtype=float))
+    n_ = _np.sort(_np.asarray(neg, dtype=float))
+    lo = _np.searchsorted(n_, p_, side="left")
+    hi = _np.searchsorted(n_, p_, side="right")
+    ties = int((hi - lo).sum())
+    below = int(lo.sum())  # negatives strictly below each positive
+    wins = below if sc == "pos" else len(p_) * len(n_) - below - ties
+    P = len(p_) + ep
+    N = len(n_) + en
+    wins += ep * N + en * len(p_)
+    return (Fraction(wins) + Fraction(ties, 2)) / (P * N)
+
+
 def step_area(pos, neg, ep, en, sc, lower, upper):
     """Exact area under the empirical step ROC (x=FPR, y=TPR) over [lower, upper];
     valid when no value is shared between the classes."""
